@@ -27,7 +27,7 @@ NONE == "__none__"
 
 \* value types and, per type, two lexical spellings (index 1, 2); "Leaf"/"Sub" are models
 PrimTypes == {"int", "str", "bool", "float", "decimal", "Color", "ints"}
-Types == PrimTypes \cup {"Leaf"}
+Types == PrimTypes \cup {"Leaf", "Sub"}        \* Sub is a subclass of Leaf
 Lex(tp, i) ==
   CASE tp = "int"     -> IF i = 1 THEN "1" ELSE "-7"
     [] tp = "str"     -> IF i = 1 THEN "1" ELSE "true"        \* strings that LOOK like other types
@@ -37,6 +37,7 @@ Lex(tp, i) ==
     [] tp = "Color"   -> IF i = 1 THEN "red" ELSE "1"         \* enum with a member whose value is "1"
     [] tp = "ints"    -> IF i = 1 THEN "1 2" ELSE "3"         \* tokens
     [] tp = "Leaf"    -> IF i = 1 THEN "leaf" ELSE "sub"      \* an instance of Leaf / of its subclass Sub
+    [] tp = "Sub"     -> IF i = 1 THEN "sub" ELSE "sub2"      \* two instances of Sub
 
 \* an item of the value list: [c: index of its choice, i: which value, nil: BOOL, wrapped: BOOL]
 \*   nil     - the value is None (only for a nillable choice; it is written by the FIRST nillable choice)
@@ -52,19 +53,27 @@ FirstNillableOf(m, tokens) == LET S == {k \in DOMAIN m.choices : m.choices[k].ni
 \*  code writes it as the nil form of the first nillable tokens choice and reads that back as None)
 NilChoices(m) == {FirstNillableOf(m, FALSE)} \ {0}
 
+IsModel(tp) == tp \in {"Leaf", "Sub"}
+XAttr(tp, i) == IF tp = "Leaf" THEN (IF i = 1 THEN "5" ELSE "6") ELSE (IF i = 1 THEN "6" ELSE "7")
+HasChoiceOf(m, tp) == \E k \in DOMAIN m.choices : m.choices[k].tp = tp
+
 \* the element the documentation prescribes for one item
 ElemOf(m, it) ==
   LET ch == m.choices[it.c] IN
   \* (the documentation does not say what a nillable choice writes for a model WITHOUT element content; the
   \*  code marks it xsi:nil="true" next to its attributes, like a nillable element field does - followed here)
-  [ns |-> ChoiceNs(m, ch), name |-> ch.name, nil |-> it.nil \/ (ch.nillable /\ ch.tp = "Leaf"),
-   text |-> IF it.nil \/ ch.tp = "Leaf" THEN "" ELSE Lex(ch.tp, it.i),
-   attrs |-> IF ~it.nil /\ ch.tp = "Leaf" THEN << [name |-> "x", v |-> IF it.i = 1 THEN "5" ELSE "6"] >> ELSE <<>>,
+  [ns |-> ChoiceNs(m, ch), name |-> ch.name, nil |-> it.nil \/ (ch.nillable /\ IsModel(ch.tp)),
+   text |-> IF it.nil \/ IsModel(ch.tp) THEN "" ELSE Lex(ch.tp, it.i),
+   attrs |-> IF ~it.nil /\ IsModel(ch.tp) THEN << [name |-> "x", v |-> XAttr(ch.tp, it.i)] >> ELSE <<>>,
+   \* a Sub instance under the choice of its BASE class is marked with xsi:type; under its own choice it is not
    xsitype |-> IF ~it.nil /\ ch.tp = "Leaf" /\ it.i = 2 THEN "Sub" ELSE NONE]
 Prescribed(m, inst) == [k \in DOMAIN inst |-> ElemOf(m, inst[k])]
 
 \* which items a model admits
-ItemsOf(m) == {Item(c, i, FALSE, w) : c \in DOMAIN m.choices, i \in 1..2, w \in BOOLEAN} \cup
+\* (a value belongs to the choice that names its class EXACTLY; only without such a choice does a Sub instance
+\*  go under the choice of its base class: wherever the base choice stands in the list)
+ItemsOf(m) == {it \in {Item(c, i, FALSE, w) : c \in DOMAIN m.choices, i \in 1..2, w \in BOOLEAN} :
+                 ~(m.choices[it.c].tp = "Leaf" /\ it.i = 2 /\ HasChoiceOf(m, "Sub"))} \cup
               \* (None in a single optional field means "absent", only a list can hold an explicit nil)
               {Item(c, 1, TRUE, FALSE) : c \in IF m.list THEN NilChoices(m) ELSE {}}
 \* (a wrapped primitive is written with an xsi:type naming its XSD type; the harness materialises
